@@ -2,7 +2,7 @@
    correct on every conforming image.
 
    Format relation (written independently of both functions): Model/PackFormat.v  conforms_pack
-   Model of src/fe9_arc.rs (after the repairs F7, F8):          Model/Pack.v        parse, serialize
+   Model of src/fe9_arc.rs (after the repairs F7, F8, F26):          Model/Pack.v        parse, serialize
    tied to /repo by `./check C15` (serialize byte-exact, parse on reference-written images that the
    extracted conforms_packb accepted, the game file, malformed inputs in both build profiles).
 
@@ -10,8 +10,10 @@
    speak about names s with decode (encode s) = s.  "Shift-JIS-representable" is therefore narrower than "encodes without
    error": U+00A5, U+203E and U+2212 encode (to 5C, 7E, 81 7C) but come back as U+005C, U+007E, U+FF0D - a file named
    "\u{A5}a" is found again under "\\a" (outside the domain, as in C01 and C06).  Hypotheses that are
-   limits of the code, not of the proof: at most 65535 files (`contents.len() as u16` truncates,
-   see C15_count_truncates) and an image below 4 GiB (`as u32` truncates) - fits32. *)
+   limits of the FORMAT: at most 65535 files (16-bit count) and an image below 4 GiB (32-bit addresses and sizes) - beyond
+   them serialize returns an error since the repair F26 (530f18c; C15_serialize_rejects_too_many / _too_large).  The
+   hypotheses `<= 65535` and fits32 remain only where SUCCESS must be guaranteed (C15_serialize_conforms, C15_round_trip);
+   C15_serialize_Ok_conforms / C15_round_trip_of_Ok need neither. *)
 From Coq Require Import List NArith Bool.
 From Mila Require Import Lib.Bytes Lib.Machine Model.PackFormat Model.Pack
   Proofs.PackFormatProofs Proofs.PackParse Proofs.PackSerialize.
@@ -45,6 +47,20 @@ Theorem C15_round_trip : forall files,
   wf_files files -> N.of_nat (length files) <= 65535 -> fits32 files ->
   forall m, exists f, serialize files = Ok f /\ parse m f = Ok files.
 Proof. exact round_trip. Qed.
+(* the two size hypotheses above GUARANTEE success; they are not needed for correctness: since F26 (530f18c) success of
+   serialize itself implies "at most 65535 files, image below 4 GiB", so whatever serialize returns for distinct NUL-free
+   names conforms, and parses back to the same files *)
+Theorem C15_serialize_Ok_conforms : forall files f,
+  wf_files files -> serialize files = Ok f ->
+  conforms_pack f files /\
+  (forall i e, nth_error files i = Some e ->
+     exists na fa sz, fields_at f (N.of_nat i) na fa sz /\ name_at f na (fst e) /\
+                      sliceN fa sz f = Some (snd e) /\ fa mod 32 = 0 /\ sz = lenN (snd e)) /\
+  u16_at BE f 4 = Some (N.of_nat (length files)) /\ wfb f /\ N.of_nat (length files) <= 65535 /\ lenN f < 2 ^ 32.
+Proof. exact serialize_Ok_conforms. Qed.
+Theorem C15_round_trip_of_Ok : forall files f,
+  wf_files files -> serialize files = Ok f -> forall m, parse m f = Ok files.
+Proof. exact round_trip_of_Ok. Qed.
 
 (* the boolean checker used (extracted) to validate generated images decides the format relation *)
 Theorem C15_checker_sound : forall f files, conforms_packb f files = true -> conforms_pack f files.
@@ -52,10 +68,22 @@ Proof. exact conforms_packb_sound. Qed.
 Theorem C15_checker_complete : forall f files, conforms_pack f files -> conforms_packb f files = true.
 Proof. exact conforms_packb_complete. Qed.
 
-(* why the 65535 bound is a hypothesis: the count field is the number of files modulo 2^16 *)
-Theorem C15_count_truncates : forall files,
-  exists f, serialize files = Ok f /\ u16_at BE f 4 = Some (N.of_nat (length files) mod 2 ^ 16).
-Proof. exact serialize_count. Qed.
+(* F26 (repaired, 530f18c): more than 65535 files, or an image of 4 GiB or more, is REJECTED.  Before the repair the count was
+   written `as u16` and every address / size `as u32`: 65536 files gave a header count 0, one file of 2^32 bytes a size
+   field 0 (parse then returned it as 0 bytes) - silently.  [image files] (Proofs/PackSerialize.v) is the assembled image;
+   serialize succeeds EXACTLY when both limits hold. *)
+Theorem C15_serialize_rejects_too_many : forall files, 65535 < N.of_nat (length files) -> serialize files = Err EOther.
+Proof. exact serialize_rejects_too_many. Qed.
+Theorem C15_serialize_rejects_too_large : forall files, 2 ^ 32 <= lenN (image files) -> serialize files = Err EOther.
+Proof. exact serialize_rejects_too_large. Qed.
+Theorem C15_serialize_rejects_big_contents : forall files,
+  2 ^ 32 <= fold_right (fun b acc => lenN b + acc) 0 (map snd files) -> serialize files = Err EOther.
+Proof. exact serialize_rejects_big_contents. Qed.
+Theorem C15_serialize_Ok_iff : forall files,
+  (exists f, serialize files = Ok f) <-> N.of_nat (length files) <= 65535 /\ lenN (image files) < 2 ^ 32.
+Proof. exact serialize_Ok_iff. Qed.
+Theorem C15_serialize_never_panics : forall files k, serialize files <> Panic k.
+Proof. exact serialize_never_panics. Qed.
 
 (* ---------------------------------------------------------------- non-vacuity *)
 (* the empty archive and an archive with an empty file, a 32-byte file and a 33-byte file meet
